@@ -265,6 +265,15 @@ def commentsOf (ls : List Str) : List Str :=
 /-- script info: the last occurrence of a key wins; an empty string value is "not set" -/
 def infoOf (ls : List Str) : Option (List (String × GVal)) :=
   let kvs := ls.filterMap fun l => match classify l with | .kv k v => some (String.ofList k, v) | _ => none
+  -- a repeated header: the last occurrence counts, but every occurrence must be well-formed
+  let allOk := kvs.all fun (k, v) =>
+    match infoTable.find? (fun (h, _, _) => h = k) with
+    | none => true
+    | some (_, _, kind) =>
+      if kind = .str then true
+      else if kind = .int then (intOf v).isSome
+      else (floatOf (v.map fun c => if c = ',' then '.' else c)).isSome
+  if !allOk then none else
   let vals := infoTable.map fun (h, _, kind) =>
     match (kvs.reverse.lookup h) with
     | none => some none
